@@ -316,16 +316,29 @@ func c10Oracle(c *lab.Case, sc c10Scenario, res *lab.Result, h *lab.History) []l
 		if cur != "Running" && cur != "Recovering" {
 			return vs
 		}
+		// Had the recovery restart already begun to build its run when the call returned (a plugin
+		// of the next run was dispensed or opened before)? Then the call met the window between the
+		// end of the back-off wait and the publication of the new run; keyed separately.
+		shape := ""
+		for i, e := range res.Events {
+			if i >= call.RetIdx {
+				break
+			}
+			if e.Inst > 1 && (e.Kind == lab.EvSrcNew || e.Kind == lab.EvSrcOpen || e.Kind == lab.EvDstOpen) {
+				shape = "/restart-already-starting"
+				break
+			}
+		}
 		for _, oi := range openIdx {
 			if oi > call.RetIdx {
 				// a restart may already have been under way when the call was issued; it counts only
 				// if the pipeline reports Running/Recovering again after the stop completed
-				add("restarted-after-"+kindCtl, fmt.Sprintf("source reopened at #%d after %s returned at #%d", oi, kindCtl, call.RetIdx), oi)
+				add("restarted-after-"+kindCtl+shape, fmt.Sprintf("source reopened at #%d after %s returned at #%d", oi, kindCtl, call.RetIdx), oi)
 				break
 			}
 		}
 		if final != want {
-			add("wrong-final-status-after-"+kindCtl, fmt.Sprintf("final status %s (%s), expected %s", final, truncateStr(finalErr, 120), want), len(res.Events))
+			add("wrong-final-status-after-"+kindCtl+shape, fmt.Sprintf("final status %s (%s), expected %s", final, truncateStr(finalErr, 120), want), len(res.Events))
 		}
 	}
 	return vs
